@@ -164,6 +164,19 @@ theorem switch_affects_only_later (k : Kind) (e e' : Endian) (before after : Lis
   rw [writeAll_append]
   simp [writeAll, writeOp]
 
+/-- **writing the same array again** — in the same order or after a switch — yields its canonical bytes
+    again, each time under the order then in force.  In the model a write is a function of (order, value)
+    returning only (order', bytes): it has no way to alter its argument.  That the real `operator<<` leaves
+    the caller's `const Array<T>&` (and `const T&`) untouched is observed by the harness after every write
+    (`wv` prints the caller's array; `w`/`wa` compare it with a pristine copy). -/
+theorem array_rewrite_canonical (k : Kind) (e e' : Endian) (t : Ty) (vs : List Nat) :
+    (writeAll k e [.array t vs, .array t vs, .setEndian e', .array t vs]).2 =
+      (vs.map (norm t)).flatMap (bytes (resolve e) (sizeofT t)) ++
+      ((vs.map (norm t)).flatMap (bytes (resolve e) (sizeofT t)) ++
+       (vs.map (norm t)).flatMap (bytes (resolve e') (sizeofT t))) := by
+  rw [write_canonical]
+  simp [toItem, encode]
+
 /-! ## reading back -/
 
 /-- **what a read returns**: with at least `sizeof(T)` bytes left, `stream >> x` consumes exactly
